@@ -200,6 +200,11 @@ partial def pValue : P GoVal := fun cs =>
     | some (kvs, r') => some (.map (collapse kvs), r')
     | none => none
   else if let some r := tryPre "n" then some (.nil, r)
+  else if let some r := tryPre "tm:" then
+    -- a Go time.Time value: outside the modelled region (the CBOR encoder's time options)
+    (match pInt r with
+     | some (_, r') => some (.opaque, r')
+     | none => none)
   else if let some r := tryPre "t" then some (.bool true, r)
   else if let some r := tryPre "x" then some (.opaque, r)
   else
